@@ -11,6 +11,7 @@ package c10
 import (
 	"fmt"
 	"math/big"
+	"strings"
 	"time"
 
 	sdkmath "cosmossdk.io/math"
@@ -228,6 +229,16 @@ func (d *driver) ops(w *world.World, depth int, path []string) []engine.Op {
 				d.burned = append(d.burned, sdkmath.ZeroInt())
 			}
 			d.burned[len(p)] = d.burned[len(p)-1]
+			// once a token contract is gone only coin -> token conversions are still judged for it
+			// (nothing else can be observed about a contract that does not answer)
+			for _, t := range d.toks {
+				if strings.Contains(name, "("+t.name+",") || strings.Contains(name, "("+t.name+")") {
+					if d.gone(t) && !strings.HasPrefix(name, "convertCoin(") {
+						d.lastBurned = d.burned[len(p)].String()
+						return "skip"
+					}
+				}
+			}
 			r := f(p, res)
 			d.lastBurned = d.burned[len(p)].String()
 			return r
@@ -254,6 +265,15 @@ func (d *driver) ops(w *world.World, depth int, path []string) []engine.Op {
 						d.viol(res, t, "convertCoin", "partial", "a failed conversion changed balances", p, map[string]any{"before": a.String(), "after": b.String()})
 					}
 					return engine.ErrClass(err)
+				}
+				if d.gone(t) {
+					// nothing can be credited any more: the message may succeed (the pair is dropped) but must
+					// not take the coins
+					if !b.coinS.Equal(a.coinS) || !b.modCoin.Equal(a.modCoin) {
+						d.viol(res, t, "convertCoin", "partial", "a conversion against a token contract that no longer exists took the coins", p,
+							map[string]any{"coin_debit": a.coinS.Sub(b.coinS).String(), "module_coins": b.modCoin.Sub(a.modCoin).String()})
+					}
+					return "ok:contract-gone"
 				}
 				if !a.coinS.Sub(b.coinS).Equal(amt) || !b.tokR.Sub(a.tokR).Equal(amt) {
 					d.viol(res, t, "convertCoin", "notexact", "coin -> token conversion did not debit and credit exactly the amount", p,
@@ -283,6 +303,19 @@ func (d *driver) ops(w *world.World, depth int, path []string) []engine.Op {
 						map[string]any{"amount": amt.String(), "token_debit": a.tokS.Sub(b.tokS).String(), "coin_credit": b.coinR.Sub(a.coinR).String()})
 				}
 				res.Nontrivial[fmt.Sprintf("ce|%s|%s", t.name, cls)] = true
+				return "ok"
+			})
+		}
+		// the token contract self-destructed (its account and code are deleted at the end of that
+		// transaction): coins of the pair may still be in circulation
+		if t.origin == "erc20" && t.name == "honest" {
+			add(fmt.Sprintf("contractGone(%s)", t.name), func(p []string, res *engine.Result) string {
+				if d.gone(t) {
+					return "skip"
+				}
+				if err := w.App.EvmKeeper.DeleteAccount(w.App.BaseApp.VerifDeliverCtx(), t.addr); err != nil {
+					return engine.ErrClass(err)
+				}
 				return "ok"
 			})
 		}
@@ -465,9 +498,18 @@ func (d *driver) ops(w *world.World, depth int, path []string) []engine.Op {
 	return out
 }
 
+// gone: the token contract no longer exists (it self-destructed): its pair is beyond any backing
+// invariant, but a conversion still moves both sides or nothing.
+func (d *driver) gone(t token) bool {
+	return t.origin == "erc20" && len(d.w.App.EvmKeeper.GetCode(d.w.Ctx(), common.BytesToHash(d.w.App.EvmKeeper.GetAccountOrEmpty(d.w.Ctx(), t.addr).CodeHash))) == 0
+}
+
 func (d *driver) invariant(w *world.World, p []string, res *engine.Result) {
 	for _, t := range d.toks {
 		res.Evaluations++
+		if d.gone(t) {
+			continue
+		}
 		if t.origin == "coin" {
 			tot, esc := d.totalSupply(t), d.coinBal(t.denom, d.mod)
 			if tot.GT(esc) {
